@@ -541,4 +541,81 @@ def constants_monitor():
     y.go()
     if bool(d):
         viol.append("C04: y & NEVER became true")
+    viol.extend(operand_table_monitor())
+    return viol
+
+
+def operand_table_monitor():
+    """every kind of operand on either side of | and & (a fresh signal, a triggered one, DONE, NEVER, None, Null, True, False): the
+    result reads as the Boolean function of its operands says, before and after each fresh operand is triggered, and a callback
+    on it runs exactly when it turns true.  None / Null are absent operands; True / False are the constants."""
+    from mo_threads import signals
+    from mo_dots import Null
+    Signal, DONE, NEVER = signals.Signal, signals.DONE, signals.NEVER
+    viol = []
+    kinds = ["fresh", "fired", "DONE", "NEVER", "None", "Null", "True", "False"]
+
+    def make(kind, name):
+        if kind == "fresh":
+            return Signal(name)
+        if kind == "fired":
+            s = Signal(name)
+            s.go()
+            return s
+        return {"DONE": DONE, "NEVER": NEVER, "None": None, "Null": Null, "True": True, "False": False}[kind]
+
+    def truth(kind, v, op):
+        if kind in ("None", "Null"):
+            return None                     # absent
+        if kind in ("True", "False"):
+            return kind == "True"
+        return bool(v)
+
+    for op in "|&":
+        for ka in ("fresh", "fired", "DONE", "NEVER"):          # the left operand is a signal
+            for kb in kinds:
+                a, b = make(ka, "a"), make(kb, "b")
+                try:
+                    e = (a | b) if op == "|" else (a & b)
+                except Exception as cause:   # noqa
+                    viol.append("%s: %s %s %s raised %r" % ("C03" if op == "|" else "C04", ka, op, kb, cause))
+                    continue
+                ran = []
+                if isinstance(e, Signal):
+                    e.then(lambda: ran.append(1))
+
+                def want():
+                    ta, tb = truth(ka, a, op), truth(kb, b, op)
+                    vals = [t for t in (ta, tb) if t is not None]
+                    return any(vals) if op == "|" else all(vals)
+
+                def check(when):
+                    w = want()
+                    if bool(e) != w:
+                        viol.append("%s: (%s %s %s) reads %s %s, its operands make it %s" % ("C03" if op == "|" else "C04", ka, op, kb, bool(e), when, w))
+                        return False
+                    if isinstance(e, Signal) and (len(ran) != (1 if w else 0)):
+                        viol.append("%s: (%s %s %s) reads %s %s but its callback ran %d times" % ("C03" if op == "|" else "C04", ka, op, kb, w, when, len(ran)))
+                        return False
+                    return True
+                if not check("when built"):
+                    continue
+                for nm, k, v in (("b", kb, b), ("a", ka, a)):
+                    if k == "fresh":
+                        v.go()
+                        if not check("after %s was triggered" % nm):
+                            break
+    # a constant on the left (the reflected operator)
+    for kl in ("None", "False", "True"):
+        x = Signal("x")
+        try:
+            e = make(kl, "l") | x
+            w0 = (kl == "True")
+            if bool(e) != w0:
+                viol.append("C03: (%s | fresh) reads %s when built" % (kl, bool(e)))
+            x.go()
+            if not bool(e):
+                viol.append("C03: (%s | fresh) is false after the signal was triggered" % kl)
+        except Exception as cause:   # noqa
+            viol.append("C03: %s | fresh raised %r" % (kl, cause))
     return viol
